@@ -48,6 +48,7 @@ func EmuFromMask(m int) Emu {
 // Ctx is one evaluation context.
 type Ctx struct {
 	Root    any // root schema document for local $ref resolution
+	Remotes map[string]any // remote documents by URL (without fragment)
 	Formats strfmt.Registry
 	Emu     Emu
 	// Touched records which keyword groups were evaluated on a non-trivial instance (coverage evidence).
@@ -183,19 +184,40 @@ func (c *Ctx) fired(k string) {
 	c.Fired[k] = true
 }
 
-// Resolve follows a local reference ("#", "#/a/b") in the root document.
+// Resolve follows a reference: local ("#", "#/a/b") in the current root document, or into one of
+// the registered remote documents ("http://json-schema.org/draft-04/schema#/properties/title").
 func (c *Ctx) Resolve(ref string) (any, bool) {
+	t, _, ok := c.resolve(ref)
+	return t, ok
+}
+
+func (c *Ctx) resolve(ref string) (target any, root any, ok bool) {
+	root = c.Root
+	p := ref
 	if !strings.HasPrefix(ref, "#") {
-		return nil, false
+		i := strings.Index(ref, "#")
+		base, frag := ref, ""
+		if i >= 0 {
+			base, frag = ref[:i], ref[i:]
+		}
+		doc, found := c.Remotes[base]
+		if !found {
+			return nil, nil, false
+		}
+		root = doc
+		p = frag
+		if p == "" {
+			p = "#"
+		}
 	}
-	p := strings.TrimPrefix(ref, "#")
+	p = strings.TrimPrefix(p, "#")
 	if p == "" {
-		return c.Root, true
+		return root, root, true
 	}
 	if !strings.HasPrefix(p, "/") {
-		return nil, false
+		return nil, nil, false
 	}
-	cur := c.Root
+	cur := root
 	for _, tok := range strings.Split(p[1:], "/") {
 		tok = strings.ReplaceAll(strings.ReplaceAll(tok, "~1", "/"), "~0", "~")
 		tok = unescapePercent(tok)
@@ -203,20 +225,20 @@ func (c *Ctx) Resolve(ref string) (any, bool) {
 		case map[string]any:
 			nx, ok := x[tok]
 			if !ok {
-				return nil, false
+				return nil, nil, false
 			}
 			cur = nx
 		case []any:
 			var idx int
 			if _, err := fmt.Sscanf(tok, "%d", &idx); err != nil || idx < 0 || idx >= len(x) {
-				return nil, false
+				return nil, nil, false
 			}
 			cur = x[idx]
 		default:
-			return nil, false
+			return nil, nil, false
 		}
 	}
-	return cur, true
+	return cur, root, true
 }
 
 func unescapePercent(s string) string {
@@ -241,13 +263,17 @@ func (c *Ctx) Valid(schema any, inst any) bool {
 		return true
 	}
 	if ref, ok := s["$ref"].(string); ok {
-		t, found := c.Resolve(ref)
+		t, newRoot, found := c.resolve(ref)
 		if !found {
 			c.Unresolved = true
 			return true
 		}
 		c.touch("$ref")
-		return c.Valid(t, inst)
+		saved := c.Root
+		c.Root = newRoot
+		v := c.Valid(t, inst)
+		c.Root = saved
+		return v
 	}
 
 	isNull := inst == nil
